@@ -17,6 +17,7 @@ PROFILES = {
     'C01': [
         ('all-variants', 260, 2600, dict(rake_p=0.45), dict(probe_level=0, illegal=0.05)),
         ('short-stacks-antes', 140, 1400, dict(stacks='short', ante_p=0.9, rake_p=0.3), dict(probe_level=0, illegal=0.0, fold=0.05)),
+        ('custom-street-lists', 120, 1200, dict(custom=True), dict(probe_level=0, illegal=0.0, fold=0.06)),
         ('split-pots-boards', 160, 1600, dict(variants=HILO + ['PO', 'NT', 'FO/8'], stacks='mixed', boards=(1, 2, 2), mode='C'),
          dict(probe_level=0, illegal=0.0, fold=0.02, allin=0.15, runout=0.8)),
     ],
@@ -36,6 +37,7 @@ PROFILES = {
     ],
     'C06': [
         ('all-variants', 160, 1600, dict(), dict(probe_level=0, illegal=0.05, explicit_cards=0.35)),
+        ('custom-street-lists', 100, 1000, dict(custom=True, stacks='deep'), dict(probe_level=0, illegal=0.0, fold=0.03, discard=0.9)),
         ('full-ring-stud-draw-no-folds', 60, 600, dict(variants=STUD + DRAW, stacks='deep', max_n=8),
          dict(probe_level=0, illegal=0.0, fold=0.0, raise_=0.1, explicit_cards=0.2, discard=0.95)),
         ('unknown-cards', 60, 600, dict(variants=['NT', 'PO', 'FT', 'F2L3D', 'FB'], no_autos=('Hole cards showing or mucking',)),
@@ -46,6 +48,7 @@ PROFILES = {
     'C07': [
         ('all-variants-random-automation', 300, 3000, dict(), dict(probe_level=0, illegal=0.1)),
         ('short-stacks-random-automation', 150, 1500, dict(stacks='short', ante_p=0.8), dict(probe_level=0, illegal=0.05, allin=0.2)),
+        ('custom-street-lists', 150, 1500, dict(custom=True), dict(probe_level=0, illegal=0.05)),
     ],
     'C08': [
         ('all-variants-full-universe', 200, 2000, dict(), dict(probe_level=2, illegal=0.45)),
@@ -54,10 +57,17 @@ PROFILES = {
         ('all-variants', 200, 2000, dict(), dict(probe_level=0, illegal=0.05, explicit_player=0.6, multi_card=0.5)),
         ('stud-draw-full-ring', 80, 800, dict(variants=STUD + DRAW, max_n=8, stacks='deep'),
          dict(probe_level=0, illegal=0.0, fold=0.02, raise_=0.1, discard=0.9)),
+        ('custom-street-lists', 220, 2200, dict(custom=True, stacks='deep'),
+         dict(probe_level=0, illegal=0.03, fold=0.03, raise_=0.1, discard=0.9, explicit_player=0.6, multi_card=0.5)),
     ],
     'C12': [
         ('deep-showdowns', 220, 2200, dict(stacks='deep'), dict(probe_level=0, illegal=0.0, fold=0.03, raise_=0.2, manual_show=0.1)),
         ('side-pots', 120, 1200, dict(stacks='mixed', variants=FLOP + STUD), dict(probe_level=0, illegal=0.0, fold=0.03, allin=0.15, manual_show=0.1)),
+        ('hi-lo-boards-runouts', 140, 1400, dict(variants=['FO/8', 'FO/8', 'PO', 'NT'], stacks='mixed', boards=(1, 2, 2), mode='C'),
+         dict(probe_level=0, illegal=0.0, fold=0.02, allin=0.2, manual_show=0.05, runout=0.8)),
+        ('explicit-and-partial-shows', 100, 1000, dict(variants=FLOP + STUD, stacks='short'),
+         dict(probe_level=1, illegal=0.0, fold=0.03, allin=0.3, manual_show=0.3, partial_show=0.3)),
+        ('custom-street-lists', 80, 800, dict(custom=True), dict(probe_level=0, illegal=0.0, fold=0.03)),
     ],
     'C13': [
         ('stud-openings', 160, 1600, dict(variants=STUD, stacks='mixed'), dict(probe_level=0, illegal=0.0, fold=0.15)),
@@ -85,12 +95,17 @@ NEEDS = {
 }
 
 
+CUSTOM = {'spec_fn': 'custom'}
+
+
 def trace_part(run: Run, prop: str):
     rng = random.Random(run.seed * 7919 + sum(map(ord, prop)))
     tid = 1
     for name, nq, nt, skw, pkw in PROFILES[prop]:
         n = nq if run.tier == 'quick' else nt
-        recs = T.gen_hands(run, rng, n, tid, skw, pkw)
+        skw = dict(skw)
+        fn = games.random_custom_spec if skw.pop('custom', False) else None
+        recs = T.gen_hands(run, rng, n, tid, skw, pkw, spec_fn=fn)
         tid += n
         res = T.validate(run, recs, f'{prop}_{name}', prop)
         for r in recs[:2]:
